@@ -125,6 +125,79 @@ def field_switches(f, field, adt=None):
     return out
 
 
+def bool_switches(f):
+    """All bool switches with their condition resolved through `!`.
+    Returns list of dicts {bb, root, true, false, span} where `root` is f.root_of() of the
+    (un-negated) condition and true/false are the successor blocks for that condition."""
+    if hasattr(f, "_bool_switches"):
+        return f._bool_switches
+    out = []
+    for bi in f.rpo:
+        t = f.blocks[bi]["term"]
+        if t["t"] != "switch" or t["dty"] != "bool":
+            continue
+        ft = None
+        for v, b in t["targets"]:
+            if v == 0:
+                ft = b
+        tt = t["otherwise"]
+        r = f.root_of(t["discr"])
+        neg = False
+        for _ in range(4):
+            if r[0] == "rv" and r[3]["rv"]["k"] == "unop" and r[3]["rv"]["op"] == "Not":
+                neg = not neg
+                r = f.root_of(r[3]["rv"]["a"])
+            else:
+                break
+        if neg:
+            ft, tt = tt, ft
+        out.append({"bb": bi, "root": r, "true": tt, "false": ft, "span": t["span"]})
+    f._bool_switches = out
+    return out
+
+
+def call_switches(f, suffix, arg0_field=None):
+    """bool switches whose condition is the result of a call to a callee ending in `suffix`
+    (optionally: whose first argument is a place whose last named field is arg0_field)."""
+    out = []
+    for sw in bool_switches(f):
+        r = sw["root"]
+        if r[0] != "call":
+            continue
+        t = r[2]
+        n = M.callee_name(t) or ""
+        if not n.endswith(suffix):
+            continue
+        if arg0_field is not None:
+            a = f.root_of(t["args"][0], through_named=True) if t["args"] else None
+            if not a or a[0] != "place":
+                continue
+            fp = f.field_path(a[1])
+            if not fp or not (fp[-1] == arg0_field or fp[-1].endswith("." + arg0_field)):
+                continue
+        out.append(dict(sw, call=t))
+    return out
+
+
+def calls_named(f, suffix, arg0_field=None, region=None):
+    out = []
+    for bi, t in f.calls():
+        if region is not None and bi not in region:
+            continue
+        n = M.callee_name(t) or ""
+        if not n.endswith(suffix):
+            continue
+        if arg0_field is not None:
+            a = f.root_of(t["args"][0], through_named=True) if t["args"] else None
+            if not a or a[0] != "place":
+                continue
+            fp = f.field_path(a[1])
+            if not fp or not (fp[-1] == arg0_field or fp[-1].endswith("." + arg0_field)):
+                continue
+        out.append((bi, t))
+    return out
+
+
 def try_continue_block(f, call_bb):
     """For `call(...)?`: given the block of the call, return the block control continues in on
     the Ok/Some (Continue) edge of the `?`, or None if the shape is not recognised."""
@@ -211,6 +284,46 @@ def path_event_range(f, start, stops, events, avoid=()):
         return go(start)
     except Cycle:
         return None
+
+
+def event_ranges(f, weights, start=0, cap=3, avoid=()):
+    """Forward interval dataflow. weights: {block: (lo, hi)} events contributed by executing that
+    block. Returns {block: (lo, hi)} = range of the number of events on paths from `start` to the
+    *end* of that block; hi saturates at `cap` (meaning 'cap or more'). Loops are handled by
+    fixpoint iteration (an event inside a loop saturates hi)."""
+    avoid = set(avoid)
+    INF = 10 ** 9
+    inn = {}
+    out = {}
+    order = [b for b in f.rpo if b not in avoid]
+    reach = reach_from(f, [start], avoid_blocks=avoid)
+    order = [b for b in order if b in reach]
+    changed = True
+    it = 0
+    while changed and it < 200:
+        changed = False
+        it += 1
+        for b in order:
+            if b == start:
+                lo, hi = 0, 0
+                for p in f.pred[b]:
+                    if p in out:
+                        lo = min(lo, out[p][0])
+                        hi = max(hi, out[p][1])
+            else:
+                lo, hi = INF, -1
+                for p in f.pred[b]:
+                    if p in out:
+                        lo = min(lo, out[p][0])
+                        hi = max(hi, out[p][1])
+                if hi < 0:
+                    continue
+            w = weights.get(b, (0, 0))
+            o = (min(lo + w[0], cap), min(hi + w[1], cap))
+            if out.get(b) != o:
+                out[b] = o
+                changed = True
+    return out
 
 
 def natural_loops(f):
